@@ -256,8 +256,11 @@ def rule_eqstate(ctx):
             for n in ast.walk(eq.node):
                 if isinstance(n, ast.Attribute) and isinstance(n.value, ast.Name) and n.value.id == o_ and n.attr != "__class__":
                     facts = facts_at(prog, eq, n, unparse)
-                    neg = {f"not {x}" for x in exact_forms} | ({x.replace(" == ", " != ").replace(" is ", " is not ") for x in exact_forms} - exact_forms)
-                    if not (facts & exact_forms) or (facts & neg):
+                    negated = {x.replace(" == ", " != ").replace(" is ", " is not ") for x in exact_forms} - exact_forms
+                    neg = {f"not {x}" for x in exact_forms} | negated
+                    # `if type(a) is not type(b): return False` establishes `not type(a) is not type(b)`
+                    pos = exact_forms | {f"not {x}" for x in negated} | {f"not ({x})" for x in negated}
+                    if not (facts & pos) or (facts & neg):
                         problems.append(("guard", f"`{norm(n)}` reads an attribute of the other operand where the exact-type test does not protect it: a foreign operand raises AttributeError instead of comparing unequal"))
                         break
         elif "isinstance" in tk:
@@ -265,6 +268,19 @@ def rule_eqstate(ctx):
         else:
             problems.append(("type", "no exact-type test (type(self) == type(other)) found"))
         if c.is_subclass_of(prog.cls("conditions.ConditionBinaryOp")):
+            # operand lists compared by membership (`all(i in B for i in A)`, set(..) == set(..)) forget how often
+            # an operand occurs: a ^ a ^ b and a ^ b ^ b would compare equal although they differ in meaning
+            for n in ast.walk(eq.node):
+                memb = (isinstance(n, ast.Call) and norm(n.func) == "all" and n.args and isinstance(n.args[0], (ast.GeneratorExp, ast.ListComp))
+                        and isinstance(n.args[0].elt, ast.Compare) and isinstance(n.args[0].elt.ops[0], ast.In))
+                sets = (isinstance(n, ast.Compare) and isinstance(n.ops[0], ast.Eq) and isinstance(n.left, ast.Call) and norm(n.left.func) in ("set", "frozenset")
+                        and any("cond" in norm(a).lower() or "child" in norm(a).lower() for a in n.left.args))
+                sym = c.lookup("FLATTEN_SYMBOL")[1]
+                idempotent = isinstance(sym, ast.Constant) and sym.value in ("and", "or")
+                if (memb or sets) and not idempotent:
+                    problems.append(("multiset", f"`{norm(n)[:90]}` compares operand lists by membership: repeated operands are not counted (a ^ a ^ b == a ^ b ^ b), "
+                                                 f"so equal combinations can filter differently"))
+                    break
             pairs = _swap_symmetric(eq)
             want = {frozenset({(0, 0), (1, 1)}), frozenset({(0, 1), (1, 0)})}
             inst["children_pairings"] = sorted(sorted(p) for p in pairs)
